@@ -192,7 +192,8 @@ def run(ctx):
     term_day = {(2000, 0): 100, (2000, 12): 282, (2001, 0): 465}
     dl.term_day = term_day
     dl.ymd = lambda n: (2000, 6, 1)
-    cases = [(n, db, hour) for n in (99, 100, 281, 282, 400) for db in range(12) for hour in range(24)]
+    # (464 / 465 / 470: the last days of the civil year, around and after its own December solstice - ascending again from that day)
+    cases = [(n, db, hour) for n in (99, 100, 281, 282, 400, 464, 465, 470) for db in range(12) for hour in range(24)]
 
     def sch_star(x):
         n, db, hour = x
@@ -200,7 +201,7 @@ def run(ctx):
 
     def hour_orc(x):
         n, db, hour = x
-        asc = 100 <= n < 282
+        asc = 100 <= n < 282 or n >= 465
         hidx = 0 if hour == 23 else (hour + 1) // 2
         return hour_star_oracle(asc, db, hidx)
     table(ctx, R, 'SixtyCycleHour::get_nine_star', cases, sch_star, hour_orc, 'hour star: start by day-branch group, +/-1 per double-hour, direction by solstice half-year', lambda x: 'n=%d day-branch=%s hour=%d' % (x[0], G.BRANCHES[x[1]], x[2]), fn_site(p, 'SixtyCycleHour::get_nine_star'))
@@ -221,7 +222,7 @@ def run(ctx):
 
     def lh_orc(x):
         n, db, hour = x
-        asc = 100 <= n < 282
+        asc = 100 <= n < 282 or n >= 465
         return hour_star_oracle(asc, db, ((hour + 1) // 2) % 12)
     table(ctx, 'SIB-AGREE', 'LunarHour::get_nine_star', cases, lh_star, lh_orc, 'lunar-hour copy follows the same rule (its index-in-day has no 23:00 fold)', lambda x: 'n=%d day-branch=%s hour=%d' % (x[0], G.BRANCHES[x[1]], x[2]), fn_site(p, 'LunarHour::get_nine_star'))
 
